@@ -98,7 +98,7 @@ SPEC("pane.converters", "EnumConverter.collect_errors",
 # ---------------------------------------------------------------------------------------------
 # PatternConverter: a compiled pattern is read through its own source text
 def pat_src(val):
-    return ite(isinstance(val, Pattern), val.pattern, val)
+    return ite(isinstance(val, Pattern), attr(val, "pattern"), val)
 
 
 def ACC_Pattern(self, val):
